@@ -149,12 +149,22 @@ Definition lost_out (lost : bool) : list out := if lost then [OLost] else [].
 (* ---------------------------------------------------------------- _callback_listeners *)
 Inductive call_result := Returned | Raised.
 Section Machine.
-  (* which calls raise: a property of the registered callables, not of the library *)
+  (* The behaviour of the registered callables (not of the library):
+     raises l e   listener l raises (an Exception subclass) when called with e;
+     acts l e     what l does to the listener registry from inside that call:
+                  (true, l') = pairing.dispatcher_connect(callback l'), (false, l') = calling the
+                  stop function of l' (l' = l: a one-shot listener removing itself) *)
   Variable raises : lid -> fevent -> bool.
+  Variable acts : lid -> fevent -> list (bool * lid).
 
   Definition call (l : lid) (e : fevent) : call_result := if raises l e then Raised else Returned.
 
-  (* for listener in self.listeners: try: listener(event) except Exception: logger.exception *)
+  (* REPAIRED behaviour (fixes/C12-listener-set-snapshot.patch):
+       for listener in tuple(self.listeners): try: listener(event) except Exception: logger.exception
+     every listener registered when the event arrives is called once, whatever the listeners do
+     to the registry meanwhile.  (Unrepaired, a listener that changes the size of the set makes
+     the loop raise "RuntimeError: Set changed size during iteration" into data_received /
+     the connector.) *)
   Fixpoint notify (ls : list lid) (e : fevent) : list out :=
     match ls with
     | [] => []
@@ -165,6 +175,15 @@ Section Machine.
         | Returned => notify t e
         end
     end.
+
+  Definition add_l (l : lid) (ls : list lid) : list lid := if memN l ls then ls else ls ++ [l].
+  Definition del_l (l : lid) (ls : list lid) : list lid := filter (fun x => negb (N.eqb x l)) ls.
+  Definition apply_acts (a : list (bool * lid)) (reg : list lid) : list lid :=
+    fold_left (fun (r : list lid) (x : bool * lid) => if fst x then add_l (snd x) r else del_l (snd x) r) a reg.
+  (* the registry after the snapshot [snap] has been called with e *)
+  Definition registry_after (snap : list lid) (e : fevent) (reg : list lid) : list lid :=
+    fold_left (fun (r : list lid) (l : lid) => apply_acts (acts l e) r) snap reg.
+  Definition reg_after (s : st) (e : fevent) : list lid := registry_after (lst s) e (lst s).
 
   Definition step (s : st) (e : event) : st * list out :=
     match e with
@@ -185,29 +204,29 @@ Section Machine.
              | (o, UFail lost) =>
                  (mkst (subs s) (lst s) (sup s) (negb lost), o ++ lost_out lost ++ [ORet RetRaised])
              end
-    | AddL l =>
-        (mkst (subs s) (if memN l (lst s) then lst s else lst s ++ [l]) (sup s) (conn s), [])
-    | DelL l =>
-        (mkst (subs s) (filter (fun x => negb (N.eqb x l)) (lst s)) (sup s) (conn s), [])
+    | AddL l => (mkst (subs s) (add_l l (lst s)) (sup s) (conn s), [])
+    | DelL l => (mkst (subs s) (del_l l (lst s)) (sup s) (conn s), [])
     | ConnUp rs =>
         if conn s then (s, [])
         else
           let o0 := OSession :: notify (lst s) [] in
+          let ls := reg_after s [] in
           match subs s with
-          | [] => (mkst (subs s) (lst s) (sup s) true, o0)
+          | [] => (mkst (subs s) ls (sup s) true, o0)
           | _ :: _ =>
-              if negb (sup s) then (mkst (subs s) (lst s) (sup s) true, o0)
+              if negb (sup s) then (mkst (subs s) ls (sup s) true, o0)
               else match update true rs (subs s) with
-                   | (o, UDone _) => (mkst (subs s) (lst s) true true, o0 ++ o)
+                   | (o, UDone _) => (mkst (subs s) ls true true, o0 ++ o)
                    | (o, UFail lost) =>
-                       (mkst (subs s) (lst s) false (negb lost), o0 ++ o ++ lost_out lost)
+                       (mkst (subs s) ls false (negb lost), o0 ++ o ++ lost_out lost)
                    end
           end
     | ConnDown => if conn s then (mkst (subs s) (lst s) (sup s) false, [OLost]) else (s, [])
     | EventMsg b =>
         if conn s then
           match b with
-          | BRows rows => (s, notify (lst s) (format rows))
+          | BRows rows =>
+              (mkst (subs s) (reg_after s (format rows)) (sup s) (conn s), notify (lst s) (format rows))
           | _ => (s, [])
           end
         else (s, [])
@@ -268,18 +287,22 @@ Definition notif (s : st) (e : event) : list fevent :=
 
 Section Spec.
   Variable raises : lid -> fevent -> bool.
+  Variable acts : lid -> fevent -> list (bool * lid).
 
   (* the call log listener l must have after history h started in s *)
   Fixpoint expected_log (l : lid) (s : st) (h : list event) : list fevent :=
     match h with
     | [] => []
-    | e :: t => (if memN l (lst s) then notif s e else []) ++ expected_log l (fst (step raises s e)) t
+    | e :: t => (if memN l (lst s) then notif s e else []) ++ expected_log l (fst (step raises acts s e)) t
     end.
 
   Inductive reachable : st -> Prop :=
   | reach_init : reachable init
-  | reach_step : forall s e, reachable s -> reachable (fst (step raises s e)).
+  | reach_step : forall s e, reachable s -> reachable (fst (step raises acts s e)).
 End Spec.
+
+(* listeners that leave the registry alone *)
+Definition quiet (acts : lid -> fevent -> list (bool * lid)) : Prop := forall l e, acts l e = [].
 
 (* the last value a row list gives to a key *)
 Definition last_value (k : cid) (rows : list (cid * Z)) : option Z := lookup k (rev rows).
